@@ -41,7 +41,7 @@ CHECKS = {
             "On every expanded state fresh positions of all four side/collateral kinds are opened and fully closed at once; value received (outputs + claimables) is compared with collateral value + 2 base units.",
             "as C04", "§4 C10"),
     "C11": ("mc-model", E1, "exhaustive product enumeration (E1) over positions, pools and an ascending price list",
-            "pnl_value evaluated for every (side, size, tokens, cap, pool, other OI) x 14 ascending index prices x partial sizes; monotonicity, cap and proportional share decided; pool-level cap artefact listed as known finding.",
+            "pnl_value evaluated for every (side, size, tokens, cap, pool, other OI) x 14 ascending index prices x partial sizes; monotonicity, cap and proportional share decided; pool-level cap artefact listed as known finding. Second section: real positions opened and decreased through IncreasePosition / DecreasePosition (configurations x position kinds x price pairs x clock offsets x decrease shapes incl. partial decreases promoted to a full close): the realised pnl is the share of the size actually closed.",
             "long-token price fixed while the index price moves", "§4 C11"),
     "C12": ("mc-model", MC, "E1 product over funding parameters/OI/duration plus E2 BFS invariants on funding indices",
             "Rate bounds and payer side on the full product of parameter sets, stored factors, OI pairs, durations; funding and claimable indices monotone and pending funding computable in every reachable state of the history explorer.",
